@@ -267,6 +267,9 @@ class Evaluator:
                     return ("cmp", "!=", x[1], x[2])
             if a[0] == "bool" and b[0] == "bool" and op in ("==", "!="):
                 return mk_bool((a[1] == b[1]) == (op == "=="))
+            if a[0] == "v" and b[0] == "v" and not a[2] and not b[2] and op in ("==", "!="):
+                # two field-less enum constructors (Ordering::Less == Ordering::Less)
+                return mk_bool((a[1] == b[1]) == (op == "=="))
             return canon_cmp(op, a, b)
         return ("bin", op, a, b)
 
@@ -365,6 +368,13 @@ class Evaluator:
             yield from self.loop(e, st)
             return
         for s1, v in self.ev(e["e"], st):
+            if src == "TryDesugar" and v[0] == "call" and isinstance(v[1], str) and v[1].endswith("Try::branch") and len(v[2]) == 1:
+                v = v[2][0]          # `x?` is match Try::branch(x) { Continue(v) => v, Break(r) => return from_residual(r) }
+            if src == "TryDesugar" and v[0] == "v" and v[1] in ("None", "Err"):
+                s2 = s1.fork()
+                s2.ret = v
+                yield s2, ("unit",)
+                continue
             if src == "TryDesugar":
                 # `?` : continue with the payload (error path is not a normal return)
                 yield s1, ("payload", 0, v) if not (v[0] == "v" and v[1] in ("Ok", "Some")) else (v[2][0] if v[2] else ("unit",))
@@ -530,6 +540,9 @@ class Evaluator:
                     else:
                         yield s, r
                     continue
+            if callee in self.inline:
+                yield from self.inline_call(callee, args, s)
+                continue
             yield s, ("call", callee, args)
 
     def ev_MethodCall(self, e, st):
@@ -552,6 +565,11 @@ class Evaluator:
                 if method in ("eq", "ne") and len(args) == 1:
                     yield s, canon_cmp("==" if method == "eq" else "!=", recv, args[0])
                     continue
+                if method == "zip" and len(args) == 1 and (callee or "").startswith("core::option::Option"):
+                    a, b = recv, args[0]
+                    if a[0] == "v" and b[0] == "v" and a[1] in ("Some", "None") and b[1] in ("Some", "None"):
+                        yield s, (("v", "Some", [("tuple", [a[2][0], b[2][0]])]) if a[1] == "Some" and b[1] == "Some" else ("v", "None", []))
+                        continue
                 self.calls_seen.append(callee)
                 if self.call_hook:
                     r = self.call_hook(callee, [recv] + args, s)
@@ -562,7 +580,26 @@ class Evaluator:
                         else:
                             yield s, r
                         continue
+                if callee in self.inline:
+                    yield from self.inline_call(callee, [recv] + args, s)
+                    continue
                 yield s, ("call", callee, [recv] + args)
+
+    def inline_call(self, callee, args, s):
+        """evaluate the callee's body with the actual arguments; path conditions flow through, the callee's return value is the result"""
+        self._depth = getattr(self, "_depth", 0) + 1
+        try:
+            h = self.F.hir_fn(callee) if self._depth <= 6 else None
+            if h is None:
+                yield s, ("call", callee, args)
+                return
+            sub = State({}, s.conds)
+            for p, a in zip(h["params"], args):
+                self.match(p, a, sub.env)
+            for s2, v in self.ev(h["body"], sub):
+                yield State(s.env, s2.conds, s.ret, s.brk), (s2.ret if s2.ret is not None else v)
+        finally:
+            self._depth -= 1
 
     # ------------------------------------------------------------------ helpers
     def short(self, v, depth=0):
